@@ -56,6 +56,19 @@ type esAlias struct {
 	M string   `@Name?`
 }
 
+// production names with letters outside ASCII (Go identifiers may contain any Unicode letter)
+type EsGröße struct {
+	Wert  string  `@Int`
+	Über  *EsÜber `@@?`
+	Liste []*Es名前 `( "," @@ )*`
+}
+type EsÜber struct {
+	X string `"(" @Ident ")"`
+}
+type Es名前 struct {
+	N string `@Ident`
+}
+
 // staticExpect: substrings the String() of a static case must contain
 var staticExpect = map[string][]string{"static-alias": {"<word>", "<number>*", "<ident>?", "<name>?"}}
 
@@ -63,9 +76,10 @@ var staticEbnf = map[string]struct {
 	root string
 	mk   func() (gengram.Built, error)
 }{
-	"static-embedded": {"EsEmbedded", func() (gengram.Built, error) { return participle.Build[esEmbedded]() }},
-	"static-anon-two": {"EsAnonTwo", func() (gengram.Built, error) { return participle.Build[esAnonTwo]() }},
-	"static-anon-rec": {"EsAnonRec", func() (gengram.Built, error) { return participle.Build[esAnonRec]() }},
+	"static-embedded":      {"EsEmbedded", func() (gengram.Built, error) { return participle.Build[esEmbedded]() }},
+	"static-anon-two":      {"EsAnonTwo", func() (gengram.Built, error) { return participle.Build[esAnonTwo]() }},
+	"static-anon-rec":      {"EsAnonRec", func() (gengram.Built, error) { return participle.Build[esAnonRec]() }},
+	"static-unicode-names": {"EsGröße", func() (gengram.Built, error) { return participle.Build[EsGröße]() }},
 	"static-alias": {"EsAlias", func() (gengram.Built, error) {
 		return participle.Build[esAlias](participle.Lexer(aliasDef{lexer.TextScannerLexer}))
 	}},
